@@ -9,6 +9,7 @@ import pygen
 import cfgcommon as cc
 from c06 import CLASS_FILE, run_cli, latest_json
 import c20mcp
+import c20fail
 
 # set to True once the report is deterministic (C05 repairs): then sections are compared exactly, order included
 STRICT_ORDER = True
@@ -256,6 +257,9 @@ def main(tier):
                 ck.violation("the race detector reports a data race in the concurrent analyses (GOMAXPROCS=%d, targets %s)" % (procs, targets),
                              {"kind": "race", "targets": targets, "report": p.stderr[max(0, i - 100):i + 3000]})
                 break
+        # ---------- (c') several analyses FAIL in one run (harness/c20fail.py): race freedom, "together = apart" and a stable failure report ----------
+        stats["failing"] = c20fail.run(ck, root, race_bin, canon, first_diff, thorough)
+        stats["race_runs"] += stats["failing"]["combined_runs"] + stats["failing"]["apart_runs"]
     ck.samples = [{"project_files": files, "selects": ["complexity", "deadcode", "clones", "cbo", "lcom", "deps"]},
                   {"mcp_tools": c20mcp.TOOLS, "mcp_scenarios": [x["name"] for x in stats.get("mcp_scenarios", [])],
                    "mcp_example": {"tool": "check_complexity", "arguments": {"path": "<project>", "min_complexity": 2, "output_mode": "full"},
@@ -264,7 +268,8 @@ def main(tier):
         "evaluations": stats["section_comparisons"] + stats["per_file_comparisons"] + stats["mcp_hook_comparisons"] + stats["race_runs"]
                        + sum(stats.get("mcp_comparisons", {}).values()) + sum(stats.get("mcp_error_cases", {}).values())
                        + sum(stats.get("mcp_history", {}).get("calls", {}).values()),
-        "distinct_nontrivial": stats["subsets"] + stats["section_comparisons"] + sum(stats.get("mcp_nonempty_findings", {}).values()),
+        "distinct_nontrivial": stats["subsets"] + stats["section_comparisons"] + sum(stats.get("mcp_nonempty_findings", {}).values())
+                               + stats.get("failing", {}).get("multi_failure_scenarios", 0),
         "rule": "generated project (generated control-flow modules, classes, an import cycle, a duplicated class file): combined report vs each "
                 "--select run per section; per-file rows of complexity/dead code/CBO/LCOM for every file alone, reversed order and random subsets "
                 "vs the whole project; all seven MCP tools (analyze_code, check_complexity, detect_clones, check_coupling, find_dead_code, "
@@ -288,7 +293,15 @@ def main(tier):
                 "--config on the command line); a failing history is cut at its first wrong answer, shrunk (call alone, one earlier call + the "
                 "call, greedy removal) and replayed through a `{ printf ..; sleep ..; printf ..; } | pyscn-mcp` line; "
                 "MCP analyze_code through the in-process hook; "
-                "-race build of the CLI under several GOMAXPROCS",
+                "-race build of the CLI under several GOMAXPROCS on successful runs; FAILING analyses (harness/c20fail.py): every subset of the failure "
+                "modes the command line offers (--min-complexity < 0, --clone-threshold outside [0,1], --min-cbo < 0, [lcom] thresholds the analysis "
+                "rejects; rejected values at and beyond each boundary and the accepted neighbour) on a normal project, a project with unparsable "
+                "files, only unparsable files (complexity then fails by itself) and files in which the analyses find nothing, with all analyses "
+                "or a shuffled --select of the failing ones plus a bystander, and failures before the concurrent stage (configuration rejected at "
+                "load time, unreadable / missing target): each combined command is repeated under the -race binary with GOMAXPROCS 1/2/4/16 — no "
+                "race report, status 1, identical `Error:` output in every repetition — and compared with every analysis run ALONE with the same "
+                "options: 'N error(s)' = number of analyses failing alone, the named failure is literally one of theirs, every section of the "
+                "combined report equals the section of the lone run",
         "input_distribution": stats, "strict_order": STRICT_ORDER, "disagreements_checked": len(ck.violations),
     })
     ck.trusted += ["Coq 8.16.1 kernel", "data-race freedom is tested with the Go race detector, not proved (Go memory model and scheduler not modelled)",
